@@ -793,6 +793,16 @@ pub fn run(cfg: &Config) -> i32 {
             if !canon.content.is_ascii() {
                 continue;
             }
+            // every prefix and every suffix of the canonical content (a component that ends where the next
+            // is expected), and the same for the maximal instance
+            let mut rr2 = Rng::new(0, "c07-prefix", 0);
+            for cand in crate::spec::fieldfmt::candidates(spec, 0, &mut rr2, 0).into_iter().filter(|c| c.class == "canonical" || c.class == "maximal" || c.class == "minimal") {
+                let chars: Vec<char> = cand.content.chars().collect();
+                for n in 0..chars.len().min(80) {
+                    cases.push(("field/prefix".into(), Case::Field { ty: spec.ty.to_string(), input: chars[..n].iter().collect(), variant: None }));
+                    cases.push(("field/suffix".into(), Case::Field { ty: spec.ty.to_string(), input: chars[chars.len() - n..].iter().collect(), variant: None }));
+                }
+            }
             for i in 0..b.len().min(48) {
                 for (take, repl) in [(2usize, "é"), (2, "٣"), (4, "٣٤"), (4, "١٢"), (3, "３"), (4, "😀"), (6, "３４")] {
                     if i + take > b.len() || b[i..i + take].contains(&b'\n') {
